@@ -10,7 +10,7 @@ open Cls
 namespace Source
 variable {α κ : Type}
 open Src
-variable [DecidableEq κ]
+variable [DecidableEq κ] [DecidableEq α]
 
 /-- **`_insert` as written in dcmmeta.py leaves `other` as it found it** — whether the slice meta data is used or put aside,
     and whether the `try` block ends normally or with an exception; what it does to `self` is the `try` block run against `other`
@@ -32,6 +32,21 @@ theorem insert_on_model_extension [DecidableEq α] (null : α) (ss : List Nat) (
       .ok (Py.insert_try null ss sn sd bases kc0 o.shape on (toContent (if use then o else o.clearSliceMeta)) dim,
            toContent o) :=
   Src.insert_whole_on_ext null ss sn sd bases kc0 o h3 h5 on use dim
+
+/-- **the `try` block of `_insert` as written in dcmmeta.py treats keys independently**: when it ends normally, every key of a
+    classification dictionary of `other` — and, in the round of the global constants, every key only `self` has — holds what
+    the reclassification followed by the insertion make of *its own* entry in `self` and *its own* values in `other`, and every
+    other key of `self` holds what it held; provided no key is listed twice (keys are unique in `other` and in `self`) -/
+theorem insert_treats_keys_independently (null : α) (ss : List Nat) (sn sd : Option Nat) (bases : List String) (kc0 kc' : KContent κ α)
+    (os : List Nat) (on : Option Nat) (oc : Content κ α) (dim : Nat) (valid sv : List Cls) (oks : List κ)
+    (hv : Py.get_valid_classes os = .ok valid) (hsv : Py.get_valid_classes ss = .ok sv) (hk : Py.get_keys os oc = .ok oks)
+    (hnd : (valid.flatMap (roundKeys oc ((KContent.keys sv kc0).filter fun key => !oks.contains key))).Nodup)
+    (h : Py.insert_try null ss sn sd bases kc0 os on oc dim = .ok kc') :
+    (∀ c k, c ∈ valid → k ∈ roundKeys oc ((KContent.keys sv kc0).filter fun key => !oks.contains key) c →
+        keyStep null ss sn sd bases os on valid oc dim c k (kc0.get k) = .ok (kc'.get k)) ∧
+    (∀ k, (∀ c ∈ valid, k ∉ roundKeys oc ((KContent.keys sv kc0).filter fun key => !oks.contains key) c) →
+        kc'.get k = kc0.get k) :=
+  Src.insert_try_per_key null ss sn sd bases kc0 kc' os on oc dim valid sv oks hv hsv hk hnd h
 
 /-- the translator translated every function of this group (dcmmeta.py: _insert as a whole) -/
 theorem translator_complete_insertall : Gen.codeMissing_insertall = [] := rfl
